@@ -291,7 +291,7 @@ func run(o hx.RunOpts) error {
 	}
 	corpus(s)
 	p := hx.NewPrng(o.Seed)
-	n := o.N(1200, 12000)
+	n := o.N(1200, 6000)
 	for i := 0; i < n; i++ {
 		randomCase(s, p.Fork())
 	}
